@@ -1003,6 +1003,9 @@ func (e *Engine) applyContractSig(st *State, fr *Frame, x *ssa.Call, name string
 		if mentions(en.E, callLogBuiltins) {
 			continue // talks about the callee's own call log, which the caller cannot see
 		}
+		if en.Label != "" && spec.Hidden[en.Label] {
+			continue // "hide": proved for the callee, not handed to callers
+		}
 		if len(unboundGhosts) > 0 && mentions(en.E, unboundGhosts) {
 			continue
 		}
